@@ -208,6 +208,9 @@ FamOps(f) ==
     [] f = "pushmanblob" -> {o \in FPushManAsBlob : G1b(o.repo, o.dig)}
     [] f = "manput"   -> FManPut
     [] f = "manputbad" -> FManPutBad
+    [] f = "manputdig" -> {o \in FManPut : o.ref.k = "dig"}
+    \* (GC scenarios only) the blob of an indexed manifest is deleted through the blob API: an index entry without content
+    [] f = "blobdelman" -> {o \in OpsBlobDel : o.dig \in DOMAIN man[o.repo] /\ o.dig \in blob[o.repo] /\ ~IsArt(o.dig)}
     [] f = "manputmiss" -> FManPutMissing
     [] f = "mandel"   -> FManDel
     [] f = "mandelmiss" -> FManDelMiss
@@ -255,14 +258,16 @@ Weights ==
                                "manputmiss", "manputmiss", "manputmiss", "mandel", "mandel", "blobdel", "blobdel", "pushmanblob">>
     [] Profile = "refs" -> <<"pushblob", "pushblob", "manput", "manput", "manput", "manput", "mandel", "mandel", "restart">>
     [] Profile = "gc" -> <<"pushblob", "pushblob", "repushblob", "manput", "manput", "manput", "manput", "manput", "mandel", "mandel",
-                           "blobdel", "gc", "gc", "gcsubj", "gcsubj", "gcsubj", "age", "age", "restart", "restart", "pushmanblob">>
-    [] Profile = "layout" -> <<"pushblob", "pushblob", "manput", "manput", "manput", "manput", "mandel", "mandel", "blobdel",
+                           "blobdel", "gc", "gc", "gcsubj", "gcsubj", "gcsubj", "age", "age", "restart", "restart", "pushmanblob",
+                           "blobdelman", "blobdelman", "manputdig", "manputdig">>
+    [] Profile = "layout" -> <<"pushblob", "pushblob", "manput", "manput", "manput", "manputdig", "manputdig", "mandel", "mandel", "blobdel",
                                "gc", "gc", "age", "restart", "restart", "uppost", "uppatch", "upput", "updel">>
     [] Profile = "ro" -> <<"pushblob", "pushblob", "manput", "manput", "manput", "mandel", "reconf", "reconf",
                            "manputany", "mandelany", "blobdelany", "uppost", "uppatch", "upput", "gc", "gcpass", "restart",
                            "blobget", "manget", "tagslist">>
     [] Profile = "iso" -> <<"pushblob", "pushblob", "manput", "manput", "manput", "mandel", "uppost", "uppost", "uppatch",
-                            "upput", "sessbad", "mountbad", "mountbad", "restart", "gc", "blobdel">>
+                            "upput", "sessbad", "mountbad", "mountbad", "restart", "gc", "blobdel", "manputmiss", "manputmiss",
+                            "mangetchild", "manget">>
     [] Profile = "gcrefs" -> <<"pushblob", "pushblob", "manput", "manput", "manput", "manput", "manput", "mandel", "mandel",
                                "gcrefs", "gcsubj", "gcsubj", "gcsubj", "age", "pushmanblob", "pushmanblob", "restart">>
     [] Profile = "gcpass" -> <<"pushblob", "pushblob", "manput", "manput", "manput", "manput", "mandel", "blobdel",
